@@ -80,7 +80,9 @@ def check_invariant(c, raw, label):
                 assert bt and same_trials([ct], bt) is not False, f"{label}: cached finished trial {n} differs from backend"
 
 
-def compare_reads(c, raw, sids, label, concrete_values, stale_sink):
+def compare_reads(c, raw, sids, label, concrete_values, stale_sink, deleted_by=None):
+    deleted_by = deleted_by or {}
+    me = label.split('(')[0]
     for sid in sids:
         for flt in FILTERS:
             try:
@@ -111,6 +113,22 @@ def compare_reads(c, raw, sids, label, concrete_values, stale_sink):
             r = same_trials([g], [t])
             assert r is not False and (r is True or bool(r)), f"{label}: get_trial({t._trial_id}) stale: {g.state.name} vs {t.state.name}"
             assert c.get_trial_id_from_study_id_trial_number(sid, t.number) == t._trial_id, f"{label}: number lookup"
+        # number -> id lookup, also for numbers that do not exist and for studies that have been deleted
+        for number in range(0, len(allw) + 1):
+            try:
+                w = raw.get_trial_id_from_study_id_trial_number(sid, number)
+            except KeyError:
+                w = KeyError
+            try:
+                g = c.get_trial_id_from_study_id_trial_number(sid, number)
+            except KeyError:
+                g = KeyError
+            if g != w and w is KeyError and deleted_by.get(sid, me) != me:
+                # the study was deleted through ANOTHER client: judged last, together with the study-level getters (known finding)
+                stale_num = f"get_study_trial_number_lookup({sid}, {number}) = {g} but backend says KeyError"
+                stale_sink.append(f"{label}: study-level cache stale: " + stale_num)
+                continue
+            assert g == w, f"{label}: get_trial_id_from_study_id_trial_number({sid}, {number}) = {g} but backend says {'KeyError' if w is KeyError else w}"
         stale = []
         for getter in ("get_study_name_from_id", "get_study_directions"):
             try:
@@ -122,6 +140,7 @@ def compare_reads(c, raw, sids, label, concrete_values, stale_sink):
             except KeyError:
                 g = KeyError
             if g != w:
+                assert not (w is KeyError and deleted_by.get(sid, None) == me), f"{label}: {getter}({sid}) = {g} after this client deleted the study itself"
                 stale.append(f"{getter}({sid}) = {g} but backend says {'KeyError' if w is KeyError else w}")
         if stale:
             stale_sink.append(f"{label}: study-level cache stale: " + "; ".join(stale))
@@ -140,6 +159,7 @@ def make_body(k_steps, client_kinds, with_delete, seed_trials=0, full_alphabet=F
         concrete_values = any(k == "grpc" for k in client_kinds)
         hist = []
         stale_all = []
+        deleted_by = {}
         nvals = [0]
 
         def val():
@@ -203,6 +223,7 @@ def make_body(k_steps, client_kinds, with_delete, seed_trials=0, full_alphabet=F
                 sid = sids[sx.choose(len(sids), f"s{i}.study")]
                 try:
                     c.delete_study(sid)
+                    deleted_by[sid] = cname
                     hist.append((cname, op, sid))
                 except KeyError:
                     hist.append((cname, op, sid, "KeyError"))
@@ -211,14 +232,15 @@ def make_body(k_steps, client_kinds, with_delete, seed_trials=0, full_alphabet=F
                 sx.reach("read")
                 hist.append((cname, "read"))
                 sx.note("history", list(hist))
-                compare_reads(c, raw, sids[:1], cname, concrete_values, stale_all)
+                compare_reads(c, raw, sids[:1], cname, concrete_values, stale_all, deleted_by)
                 check_invariant(c, raw, cname)
         # final: every cached client reads everything
         for c, cname in zip(clients, names):
-            compare_reads(c, raw, sids, cname + "(final)", concrete_values, stale_all)
+            compare_reads(c, raw, sids, cname + "(final)", concrete_values, stale_all, deleted_by)
             check_invariant(c, raw, cname + "(final)")
         # study-level getters are judged last so that a (known) stale name/directions cache cannot mask a trial-level violation
-        assert not stale_all, stale_all[0]
+        assert not stale_all, stale_all[0].split(": study-level cache stale: ")[0] + ": study-level cache stale: " + "; ".join(
+            x.split(": study-level cache stale: ")[1] for x in stale_all)
         return True
     return body
 
